@@ -23,7 +23,7 @@ import (
 var rec = vev.For("C03")
 
 func TestMain(m *testing.M) {
-	rec.SetRule("path strings (a fixed list of ~60 traversal forms plus a rapid grammar over segments {name,.,..,empty,%2e%2e,%2E.,.%2e,..%2f,%2f,%5c,..\\,%00,NUL,runs of ../, computed ways to the canaries} with separators /,//,\\ and scheme://host, //host, query and fragment decorations, plus random bytes) x channel {request-target parsed by net/http, URL.Path assigned directly, Destination header} x method, served from a root that has sibling/parent canary files, a sibling whose name extends the root's name, and content inside. Oracle: everything in the sandbox outside the root is byte-identical afterwards; no response contains a canary name or content token; every multi-status href is an absolute path without '..' segments that addresses the same resource when sent back; unmappable paths (not absolute, NUL) get 4xx. non-trivial = the string contains a traversal token ('..', a percent-encoded dot/slash/backslash, backslash, NUL, or a host prefix) and reached the handler; distinct by (string, channel, method)")
+	rec.SetRule("path strings (a fixed list of ~60 traversal forms plus a rapid grammar over segments {name,.,..,empty,%2e%2e,%2E.,.%2e,..%2f,%2f,%5c,..\\,%00,NUL,runs of ../, computed ways to the canaries} with separators /,//,\\ and scheme://host, //host, query and fragment decorations, plus random bytes) x channel {request-target parsed by net/http, URL.Path assigned directly, Destination header} x method, served from a root that has sibling/parent canary files, a sibling whose name extends the root's name, and content inside. Oracle: everything in the sandbox outside the root is byte-identical afterwards; no response contains a canary name or content token; every multi-status href, sent back verbatim as a request-target with Depth 0, addresses the same resource (kind, length, tag) and, after cleaning, names an entry of that kind and size inside the served directory; unmappable paths (not absolute, NUL) get 4xx. non-trivial = the string contains a traversal token ('..', a percent-encoded dot/slash/backslash, backslash, NUL, or a host prefix) and reached the handler; distinct by (string, channel, method)")
 	rec.Assume("reads outside the root are observed through canary tokens in responses (a read leaving no trace in any response is invisible)", "symbolic links inside the served directory are not generated", "DELETE of the root collection may remove the served directory itself; only its presence is ignored in the outside snapshot")
 	vev.Main(m)
 }
